@@ -108,7 +108,92 @@ def observe(kind, path, C):
     return obs
 
 
-def run_op_with_images(kind, prep, op, C, cfgbackend=False, warm=()):
+TRACED = ("/xandikos/store/", "/dulwich/index.py", "/dulwich/file.py", "/dulwich/refs.py",
+          "/dulwich/repo.py", "/dulwich/object_store.py", "/dulwich/objects.py", "/dulwich/pack.py")
+
+
+class Interrupter:
+    """The process is told to die by a signal that Python turns into an exception
+    (SIGINT -> KeyboardInterrupt): raised at the k-th executed line of the store / git code,
+    it unwinds through every `finally' and `except BaseException' on its way out."""
+
+    def __init__(self, k):
+        self.k = k
+        self.n = 0
+        self.where = ""
+
+    def _global(self, frame, event, arg):
+        fn = frame.f_code.co_filename
+        if any(t in fn for t in TRACED):
+            return self._local
+        return None
+
+    def _local(self, frame, event, arg):
+        if event == "line":
+            self.n += 1
+            if self.n == self.k:
+                import sys
+                sys.settrace(None)
+                self.where = "%s.%s" % (os.path.basename(frame.f_code.co_filename)[:-3], frame.f_code.co_name)
+                raise KeyboardInterrupt("injected")
+        return self._local
+
+    def __enter__(self):
+        import sys
+        sys.settrace(self._global)
+        return self
+
+    def __exit__(self, *a):
+        import sys
+        sys.settrace(None)
+        return False
+
+
+def run_op_with_interrupts(kind, prestate, op, C, npoints, rng):
+    """prestate: a directory holding the store as it is before `op'.  -> image records"""
+    import gc
+    base = mkscratch("xk-")
+    try:
+        import sys
+        sys.unraisablehook = lambda *a: None     # (an injection inside a __del__ is swallowed by Python)
+
+        def attempt(k, tag):
+            path = os.path.join(base, "s%s" % tag)
+            shutil.copytree(prestate, path, symlinks=True)
+            st = open_store(kind, path)
+            it = Interrupter(k)
+            fired = False
+            try:
+                with it:
+                    apply_op(st, op)
+            except KeyboardInterrupt:
+                fired = True
+            except Exception:
+                pass
+            del st
+            gc.collect()        # what interpreter shutdown does to files still open
+            return it, fired, path
+        it, _, p0 = attempt(0, "count")
+        shutil.rmtree(p0, ignore_errors=True)
+        total = it.n
+        if total <= npoints:
+            points = list(range(1, total + 1))
+        else:
+            points = sorted(set([1 + (i * (total - 1)) // (npoints // 2 - 1) for i in range(npoints // 2)] +
+                                [rng.randint(1, total) for _ in range(npoints // 2)]))
+        records = []
+        for k in points:
+            it, fired, path = attempt(k, k)
+            if fired:
+                records.append({"k": 10000 + k, "gate": "interrupt:" + it.where, "torn": "",
+                                "obs": observe(kind, path, C)})
+            shutil.rmtree(path, ignore_errors=True)
+        return records, total
+    finally:
+        shutil.rmtree(base, ignore_errors=True)
+
+
+def run_op_with_images(kind, prep, op, C, cfgbackend=False, warm=(), interrupts=0, seed=0):
     """prep: list of operations establishing the prior contents; op: the operation whose
     crash points are enumerated.  Returns (records, gates)."""
     base = mkscratch("xc-")
@@ -129,6 +214,10 @@ def run_op_with_images(kind, prep, op, C, cfgbackend=False, warm=()):
         pre = observe(kind, path, C)
         imgdir = os.path.join(base, "images")
         os.makedirs(imgdir)
+        irecords, ilines = [], 0
+        if interrupts and op["t"] != "http" and not warm:
+            import random
+            irecords, ilines = run_op_with_interrupts(kind, path, op, C, interrupts, random.Random(seed))
         im = Imager(path, imgdir)
         err = ""
         with im:
@@ -171,7 +260,8 @@ def run_op_with_images(kind, prep, op, C, cfgbackend=False, warm=()):
                 records.append({"k": k, "gate": gate, "torn": torn, "obs": o})
         gates = [g for (_, g, _, _) in im.images if g in KEEP]
         return {"kind": kind, "cfgbackend": cfgbackend, "op": op, "pre": pre, "final": final,
-                "oper_error": err, "images": records, "gates": gates, "nevents": im.k}
+                "oper_error": err, "images": records + irecords, "gates": gates, "nevents": im.k,
+                "interrupt_points": len(irecords), "interrupt_lines": ilines}
     finally:
         shutil.rmtree(base, ignore_errors=True)
 
